@@ -25,12 +25,14 @@ from ..oracle import einsum_value, embed, ptrace, tn_tensors
 RULE = ("cases are vector-like networks built from generated arrays: graph vectors (tree / unicyclic / multi-loop core "
         "with tails, <= 9 sites, site dependent physical dims 2-3 and bond dims 1-3), MPS (open / periodic, L 2-7), PEPS "
         "(2x2..3x3, D 2-3, site dependent physical dims), PEPS3D (2x2x2, 2x2x3), complex or real, raw or "
-        "unit norm; x a complex non-symmetric operator on 1-3 distinct sites given in any order x route and its "
+        "unit norm, half of them with a stored exponent (psi.exponent in {1, -0.5, 1.5, -2}: a factor 10**e of the state, "
+        "also when the unit norm is partly held there); x a complex non-symmetric operator on 1-3 distinct sites given in any order x route and its "
         "options (normalized True/False/'return', get, flatten/reduce/symmetrized, boundary mode, layer tags, "
         "autogroup, max_distance/mode/fillin, gauges, loop sizes, combine/normalized flavours); oracle = dense numpy. "
         "Non-trivial = (>= 2 sites and the sites are not given in ascending order) or the state is not normalised")
 ASSUMPTIONS = [
-    "numpy.einsum of the generated tensors is the trusted dense state; embed / ptrace of vf.oracle are the reference",
+    "numpy.einsum of the generated tensors x 10**exponent is the trusted dense state (checked against to_dense in ag_exact); "
+    "embed / ptrace of vf.oracle are the reference",
     "compressed / boundary routes are run with an untruncating cap (max_bond >= 64..256, cutoff=0.0)",
     "cluster routes without gauges are only compared when the selected cluster contains every tensor (checked with "
     "get_cluster); with converged simple-update gauges (tol 1e-13, <= 1000 sweeps, else rejected) they are compared on "
@@ -68,6 +70,15 @@ def guarded(fn, **info):
             raise
         fr = frames[-1]
         raise Violation("crash", exc=type(e).__name__, where=f"{fr[0]}:{fr[1]}", msg=str(e)[:120], **info) from e
+
+
+def denote(tn, outs):
+    """numpy denotation of a returned / built network over labels `outs`, including its stored exponent"""
+    v = einsum_value([(np.asarray(a, dtype=np.complex128), i) for a, i in tn_tensors(tn)], outs)
+    return v * 10.0 ** float(getattr(tn, "exponent", 0.0) or 0.0)
+
+
+EXPONENTS = [0.0, 0.0, 0.0, 0.0, 1.0, -0.5, 1.5, -2.0]  # stored TensorNetwork.exponent (a factor 10**e of the state)
 
 
 def prod(xs):
@@ -176,7 +187,10 @@ def build_state(desc):
     s.n = len(sites)
     outs = [psi.site_ind(x) for x in sites]
     s.phys = [int(psi.ind_size(ix)) for ix in outs]
-    d = einsum_value([(np.asarray(a, dtype=np.complex128), i) for a, i in tn_tensors(psi)], outs).reshape(-1)
+    # a stored exponent is a factor 10**e of the state: the dense reference is (einsum of the arrays) * 10**e
+    s.expo = float(desc.get("exponent", 0.0) or 0.0)
+    psi.exponent = s.expo
+    d = denote(psi, outs).reshape(-1)
     nrm = float(np.vdot(d, d).real)
     if not (nrm > 1e-200) or not np.isfinite(nrm):
         raise Reject("zero / non-finite state")
@@ -253,7 +267,7 @@ def is_nt(s, widx):
 
 
 def base_cls(s, widx):
-    c = ["fam=" + s.desc["fam"], f"nw={len(widx)}", "unit" if s.unit else "raw", s.desc["dtype"]]
+    c = ["fam=" + s.desc["fam"], f"nw={len(widx)}", "unit" if s.unit else "raw", s.desc["dtype"], "expo" if s.expo else "expo=0"]
     if len(widx) >= 2:
         c.append("order=asc" if list(widx) == sorted(widx) else "order=other")
         if len({s.phys[i] for i in widx}) > 1:
@@ -297,7 +311,7 @@ def s_graph(draw, shape="any", nmax=9, bonds=(2, 2, 3), names=False, nmin=2):
     return {"fam": "graph", "shape": shape, "edges": edges, "core": core, "phys": ph,
             "bonds": [draw(st.sampled_from(bonds)) for _ in edges], "seed": draw(A.seeds),
             "dtype": draw(st.sampled_from(DTYPES)), "unit": draw(st.integers(0, 2)) == 0,
-            "names": "str" if (names and draw(st.integers(0, 3)) == 0) else "int"}
+            "names": "str" if (names and draw(st.integers(0, 3)) == 0) else "int", "exponent": draw(st.sampled_from(EXPONENTS))}
 
 
 @st.composite
@@ -306,7 +320,8 @@ def s_mps(draw, Lmin=2, Lmax=7, cyclic=None, max_bond=4):
     ph = fit_phys([draw(st.sampled_from([2, 2, 3])) for _ in range(L)])
     cyc = (L >= 3 and draw(st.integers(0, 2)) == 0) if cyclic is None else bool(cyclic and L >= 3)
     return {"fam": "mps", "L": L, "phys": ph, "bonds": [draw(st.integers(1, max_bond)) for _ in range(L)], "cyclic": cyc,
-            "seed": draw(A.seeds), "dtype": draw(st.sampled_from(DTYPES)), "unit": draw(st.integers(0, 2)) == 0}
+            "seed": draw(A.seeds), "dtype": draw(st.sampled_from(DTYPES)), "unit": draw(st.integers(0, 2)) == 0,
+            "exponent": draw(st.sampled_from(EXPONENTS))}
 
 
 @st.composite
@@ -316,14 +331,16 @@ def s_peps(draw, shapes=((2, 2), (2, 2), (2, 3), (3, 2), (3, 3))):
     ph = fit_phys([draw(st.sampled_from([2, 2, 2, 3])) for _ in range(n)], 768)
     D = draw(st.sampled_from([2, 2, 3])) if n <= 4 else 2
     return {"fam": "peps", "Lx": Lx, "Ly": Ly, "D": D, "phys": ph, "seed": draw(A.seeds),
-            "dtype": draw(st.sampled_from(DTYPES)), "unit": draw(st.integers(0, 2)) == 0}
+            "dtype": draw(st.sampled_from(DTYPES)), "unit": draw(st.integers(0, 2)) == 0,
+            "exponent": draw(st.sampled_from(EXPONENTS))}
 
 
 @st.composite
 def s_peps3d(draw, shapes=((2, 2, 2),)):
     Lx, Ly, Lz = draw(st.sampled_from(shapes))
     return {"fam": "peps3d", "Lx": Lx, "Ly": Ly, "Lz": Lz, "D": 2, "seed": draw(A.seeds),
-            "dtype": draw(st.sampled_from(DTYPES)), "unit": draw(st.integers(0, 2)) == 0}
+            "dtype": draw(st.sampled_from(DTYPES)), "unit": draw(st.integers(0, 2)) == 0,
+            "exponent": draw(st.sampled_from(EXPONENTS))}
 
 
 def nsites(desc):
@@ -399,8 +416,12 @@ def run_exact(case):
     psi = s.psi
     route, normalized = case["route"], case["normalized"]
     w0 = case["wheres"][0]
+    # the library's own densification agrees with arrays x 10**exponent (keeps the oracle independent and pinned)
+    dd = np.asarray(psi.to_dense([psi.site_ind(x) for x in s.sites])).reshape(-1)
+    if not rel_err(dd, s.dense, floor=np.sqrt(s.nrm)) <= TOL:
+        raise Violation("to-dense", expo=bool(s.expo))
     cls = base_cls(s, w0) + ["route=" + route, f"normalized={normalized}"]
-    info = dict(route=route, nmz=str(normalized), fam=s.desc["fam"])
+    info = dict(expo=bool(s.expo), route=route, nmz=str(normalized), fam=s.desc["fam"])
     if route == "partial_trace_exact":
         get = case["get"]
         info["get"] = get
@@ -500,7 +521,7 @@ def run_compressed(case):
     reduce = bool(case["reduce"]) and all(len(w) == 2 for w in case["wheres"]) and s.n >= 3
     kw = dict(max_bond=case["max_bond"], optimize=case["optimize"], flatten=case["flatten"], reduce=reduce,
               normalized=normalized, symmetrized=case["symmetrized"], method=case["method"], cutoff=0.0)
-    info = dict(route=route, nmz=str(normalized), fam=s.desc["fam"], method=case["method"], flatten=str(case["flatten"]),
+    info = dict(expo=bool(s.expo), route=route, nmz=str(normalized), fam=s.desc["fam"], method=case["method"], flatten=str(case["flatten"]),
                 reduce=reduce)
     cls = base_cls(s, w0) + ["route=" + route, "method=" + case["method"], f"flatten={case['flatten']}", f"reduce={reduce}",
                              f"normalized={normalized}", f"symmetrized={case['symmetrized']}", "opt=" + case["optimize"]]
@@ -618,7 +639,7 @@ def run_cluster(case):
             k = psi.get_cluster(where_sites(s, w), **{**ckw, "gauges": None})
             if k.num_tensors != n:
                 raise Reject("cluster does not span the network")
-    info = dict(route=route, nmz=str(normalized), kind=kind, gauged=gauged, mode=case["mode"])
+    info = dict(expo=bool(s.expo), route=route, nmz=str(normalized), kind=kind, gauged=gauged, mode=case["mode"])
     cls = base_cls(s, w0) + ["route=" + route, "kind=" + kind, f"gauged={gauged}", "mode=" + case["mode"],
                              f"max_distance={md if kind == 'tree' else 'span'}", f"normalized={normalized}",
                              "shape=" + desc["shape"]]
@@ -731,7 +752,7 @@ def run_loops(case):
     if normalized == "global" and desc["shape"] not in ("tree", "biconn"):
         normalized = True  # not an exact class for the single global factor (see s_loops)
     w0 = case["wheres"][0]
-    info = dict(route=kind + ":" + route, shape=desc["shape"], combine=combine, nmz=str(normalized), size=case["size"],
+    info = dict(expo=bool(s.expo), route=kind + ":" + route, shape=desc["shape"], combine=combine, nmz=str(normalized), size=case["size"],
                 gt8=n > 8)
     cls = base_cls(s, w0) + ["route=" + kind + ":" + route, "shape=" + desc["shape"], "size=" + case["size"], "combine=" + combine,
                              f"normalized={normalized}", f"autocomplete={case['autocomplete']}", f"autoreduce={case['autoreduce']}",
@@ -806,7 +827,7 @@ def run_mps_local(case):
         c = case["center"] % L
         info_arg = {}
         psi.canonicalize_(c, info=info_arg)  # the state is unchanged, its canonical record is tracked in info
-    info = dict(route=route, nmz=str(normalized), cyclic=s.desc["cyclic"], info=case["info"])
+    info = dict(expo=bool(s.expo), route=route, nmz=str(normalized), cyclic=s.desc["cyclic"], info=case["info"])
     cls = base_cls(s, w0) + ["route=" + route, f"normalized={normalized}", "cyclic" if s.desc["cyclic"] else "open",
                              "info=" + case["info"]]
     ckw = {} if case["optimize"] is None else {"optimize": case["optimize"]}
@@ -851,7 +872,7 @@ def run_mps_local(case):
                     raise Violation("receiver-mutated", **info)
     # whatever was moved around, the receiver still denotes the same state
     outs = [psi.site_ind(x) for x in s.sites]
-    d2 = einsum_value([(np.asarray(a, dtype=np.complex128), i) for a, i in tn_tensors(psi)], outs).reshape(-1)
+    d2 = denote(psi, outs).reshape(-1)
     ed = rel_err(d2, s.dense, floor=np.sqrt(s.nrm))
     if not ed <= 1e-8:
         raise Violation("state-changed", err=ed, **info)
@@ -889,7 +910,7 @@ def run_mps_expec(case):
     route = case["route"]
     w = case["where"]
     where = where_sites(s, w)
-    info = dict(route=route, cyclic=cyc, compress=str(case["compress"]))
+    info = dict(expo=bool(s.expo), route=route, cyclic=cyc, compress=str(case["compress"]))
     cls = base_cls(s, w) + ["route=" + route, "cyclic" if cyc else "open", f"compress={case['compress']}"]
     ekw = {}
     if cyc:
@@ -993,7 +1014,7 @@ def run_mps_ptr(case):
     keep = list(case["keep"])
     contiguous = keep == list(range(keep[0], keep[-1] + 1))
     arg = slice(keep[0], keep[-1] + 1) if (case["as_slice"] and contiguous) else keep
-    info = dict(route="partial_trace_to_mpo", cyclic=s.desc["cyclic"], rescale=case["rescale"], complex="complex" in s.desc["dtype"])
+    info = dict(expo=bool(s.expo), route="partial_trace_to_mpo", cyclic=s.desc["cyclic"], rescale=case["rescale"], complex="complex" in s.desc["dtype"])
     mpo = guarded(lambda: psi.partial_trace_to_mpo(arg, upper_ind_id=case["upper"], rescale_sites=case["rescale"]), **info)
     idx = list(range(len(keep))) if case["rescale"] else keep
     up = [mpo.upper_ind(i) for i in idx]
@@ -1001,7 +1022,7 @@ def run_mps_ptr(case):
     if set(mpo.outer_inds()) != set(up + lo):
         raise Violation("mpo-labels", got=sorted(mpo.outer_inds()), want=sorted(up + lo), **info)
     D = prod(s.phys[i] for i in keep)
-    M = einsum_value([(np.asarray(a, dtype=np.complex128), i) for a, i in tn_tensors(mpo)], up + lo).reshape(D, D)
+    M = denote(mpo, up + lo).reshape(D, D)
     e = check_rho(M, s, keep, False, TOL, **info)
     return {"nt": (len(keep) >= 2 or not s.unit) and "complex" in s.desc["dtype"],
             "cls": base_cls(s, keep) + ["cyclic" if s.desc["cyclic"] else "open", f"rescale={case['rescale']}",
@@ -1059,7 +1080,7 @@ def run_peps_local(case):
               return_all=case["return_all"])
     if normalized is not None:
         kw["normalized"] = normalized
-    info = dict(route="2d.compute_local_expectation", mode=case["mode"], nmz=str(normalized), layer=case["layer_tags"])
+    info = dict(expo=bool(s.expo), route="2d.compute_local_expectation", mode=case["mode"], nmz=str(normalized), layer=case["layer_tags"])
     cls = base_cls(s, w0) + [f"{s.desc['Lx']}x{s.desc['Ly']}", "mode=" + case["mode"], f"layer_tags={case['layer_tags']}",
                              f"autogroup={case['autogroup']}", f"normalized={normalized}", f"return_all={case['return_all']}",
                              f"terms={len(terms)}", "G=" + case["gform"]]
@@ -1107,7 +1128,7 @@ def run_peps_norm(case):
     psi = s.psi
     route = case["route"]
     lt = ("KET", "BRA") if case["layer_tags"] else None
-    info = dict(route="2d." + route, mode=case["mode"], layer=case["layer_tags"])
+    info = dict(expo=bool(s.expo), route="2d." + route, mode=case["mode"], layer=case["layer_tags"])
     cls = ["route=" + route, f"{s.desc['Lx']}x{s.desc['Ly']}", "mode=" + case["mode"], f"layer_tags={case['layer_tags']}",
            "unit" if s.unit else "raw", s.desc["dtype"]]
     kw = dict(max_bond=64, cutoff=0.0, mode=case["mode"], canonize=case["canonize"], layer_tags=lt)
@@ -1120,15 +1141,13 @@ def run_peps_norm(case):
         if case["inplace"] and out is not psi:
             raise Violation("inplace-identity", **info)
         outs = [out.site_ind(x) for x in s.sites]
-        d2 = einsum_value([(np.asarray(a, dtype=np.complex128), i) for a, i in tn_tensors(out)], outs).reshape(-1)
-        d2 = d2 * 10.0 ** float(getattr(out, "exponent", 0.0) or 0.0)
+        d2 = denote(out, outs).reshape(-1)
         # normalised, and still the same ray (the phase of a positive factor is 1)
         e = rel_err(d2, s.dense / np.sqrt(s.nrm), floor=1.0)
         if not e <= TOL * 10:
             raise Violation("normalize-state", err=e, norm=float(np.linalg.norm(d2)), **info)
         if not case["inplace"]:
-            d0 = einsum_value([(np.asarray(a, dtype=np.complex128), i) for a, i in tn_tensors(psi)],
-                              [psi.site_ind(x) for x in s.sites]).reshape(-1)
+            d0 = denote(psi, [psi.site_ind(x) for x in s.sites]).reshape(-1)
             if not rel_err(d0, s.dense, floor=np.sqrt(s.nrm)) <= 1e-12:
                 raise Violation("receiver-mutated", **info)
         cls += [f"balance={case['balance_bonds']}", f"equalize={case['equalize_norms']}", f"inplace={case['inplace']}"]
@@ -1157,7 +1176,7 @@ def run_peps3d_local(case):
     d = s.desc
     route, normalized = case["route"], case["normalized"]
     w0 = case["wheres"][0]
-    info = dict(route="3d." + route, nmz=str(normalized), flatten=case["flatten"], Lz=d["Lz"])
+    info = dict(expo=bool(s.expo), route="3d." + route, nmz=str(normalized), flatten=case["flatten"], Lz=d["Lz"])
     cls = base_cls(s, w0) + ["route=" + route, f"{d['Lx']}x{d['Ly']}x{d['Lz']}", f"flatten={case['flatten']}",
                              f"normalized={normalized}", f"symmetrized={case['symmetrized']}"]
     kw = dict(max_bond=256, cutoff=0.0, normalized=normalized, flatten=case["flatten"], symmetrized=case["symmetrized"])
@@ -1235,7 +1254,7 @@ def _run_lone(case, wrap=False):
     i = case["site"] % s.n
     node = (s.sites[i],) if wrap else s.sites[i]
     G, Gm = make_op(s, [i], case["gseed"])
-    info = dict(route=route, lone=True)
+    info = dict(expo=bool(s.expo), route=route, lone=True)
     ref, fl = ref_expec(s, Gm, [i], True), np.linalg.norm(Gm)
     ra = case["return_all"]
     tol = TOL
@@ -1362,6 +1381,7 @@ def build_operator(case):
                                  tags=f"I{sites[i]}"))
         tn = qtn.TensorNetwork(ts)
         tn.view_as_(qtn.TensorNetworkGenOperator, sites=list(sites), site_tag_id="I{}", upper_ind_id="k{}", lower_ind_id="b{}")
+        tn.exponent = float(desc.get("exponent", 0.0) or 0.0)
         phys = list(desc["phys"])
     elif fam == "mpo":
         L, cyc, ph, bd = desc["L"], desc["cyclic"], desc["phys"], desc["bonds"]
@@ -1374,17 +1394,19 @@ def build_operator(case):
                 shape.append(bd[i])
             arrs.append(arr(desc["seed"], i, shape + [ph[i], ph[i]], desc["dtype"]))
         tn = qtn.MatrixProductOperator(arrs, shape="lrud")
+        tn.exponent = float(desc.get("exponent", 0.0) or 0.0)
         sites, phys = list(range(L)), list(ph)
     else:
         # the reduced density operator of an MPS on its first `keep` sites, as an MPO
         psi, _ = build_mps(desc)
+        psi.exponent = float(desc.get("exponent", 0.0) or 0.0)
         k = min(case["keep"], desc["L"])
         tn = psi.partial_trace_to_mpo(list(range(k)))
         sites, phys = list(range(k)), list(desc["phys"][:k])
     up = [tn.upper_ind(x) for x in sites]
     lo = [tn.lower_ind(x) for x in sites]
     D = prod(phys)
-    W = einsum_value([(np.asarray(a, dtype=np.complex128), i) for a, i in tn_tensors(tn)], up + lo).reshape(D, D)
+    W = denote(tn, up + lo).reshape(D, D)
     return tn, sites, phys, W
 
 
@@ -1393,15 +1415,16 @@ def run_operator(case):
     n = len(sites)
     route = case["route"]
     mag = float(np.prod([max(np.linalg.norm(np.asarray(a)), 1e-300) for a, _ in tn_tensors(tn)]))
-    info = dict(route="op." + route, fam=case["fam"])
+    mag *= 10.0 ** float(tn.exponent or 0.0)
+    info = dict(expo=bool(case["state"].get("exponent")), route="op." + route, fam=case["fam"])
     cls = ["route=" + route, "fam=" + case["fam"], f"n={n}"]
     if route == "trace":
         x = guarded(lambda: tn.trace(), **info)
         e = check_scalar(x, np.trace(W), mag, TOL, **info)
         if case["fam"] == "rho_mpo":
             psi, _ = build_mps(case["state"])
-            d = einsum_value([(np.asarray(a, dtype=np.complex128), i) for a, i in tn_tensors(psi)],
-                             [psi.site_ind(i) for i in range(psi.L)]).reshape(-1)
+            psi.exponent = float(case["state"].get("exponent", 0.0) or 0.0)
+            d = denote(psi, [psi.site_ind(i) for i in range(psi.L)]).reshape(-1)
             e = max(e, check_scalar(x, np.vdot(d, d).real, mag, TOL, clause="trace==<psi|psi>", **info))
         return {"nt": n >= 2, "cls": cls, "err": e}
     sysa = [i % n for i in case["sysa"]]
@@ -1417,7 +1440,7 @@ def run_operator(case):
     if sorted(out.outer_inds()) != sorted(up + lo):
         raise Violation("op-labels", got=sorted(out.outer_inds()), want=sorted(up + lo), **info)
     D = prod(phys)
-    got = einsum_value([(np.asarray(a, dtype=np.complex128), i) for a, i in tn_tensors(out)], up + lo).reshape(D, D)
+    got = denote(out, up + lo).reshape(D, D)
     T = W.reshape(phys + phys)
     perm = list(range(2 * n))
     for i in sysa:
@@ -1429,7 +1452,7 @@ def run_operator(case):
     if not case["inplace"]:
         up0 = [tn.upper_ind(x) for x in sites]
         lo0 = [tn.lower_ind(x) for x in sites]
-        got0 = einsum_value([(np.asarray(a, dtype=np.complex128), i) for a, i in tn_tensors(tn)], up0 + lo0).reshape(D, D)
+        got0 = denote(tn, up0 + lo0).reshape(D, D)
         if not rel_err(got0, W, floor=mag) <= 1e-12:
             raise Violation("receiver-mutated", **info)
     return {"nt": n >= 2 and 0 < len(sysa) < n, "cls": cls + [f"nsys={len(sysa)}", f"inplace={case['inplace']}"], "err": e}
@@ -1459,7 +1482,7 @@ def run_ptr_compress(case):
     psi = s.psi
     sysa, sysb = case["sysa"], case["sysb"]
     covers = (len(sysa) + len(sysb) == s.n) and not s.desc["cyclic"]
-    info = dict(route="partial_trace_compress", cyclic=s.desc["cyclic"], renorm=case["renorm"], covers=covers, unit=s.unit)
+    info = dict(expo=bool(s.expo), route="partial_trace_compress", cyclic=s.desc["cyclic"], renorm=case["renorm"], covers=covers, unit=s.unit)
     rho = guarded(lambda: psi.partial_trace_compress(sysa, sysb, eps=1e-13, renorm=case["renorm"], leave_short=case["leave_short"]),
                   **info)
     want = {"kA", "kB", "bA", "bB"}
@@ -1468,8 +1491,8 @@ def run_ptr_compress(case):
     dA, dB = rho.ind_size("kA"), rho.ind_size("kB")
     if rho.ind_size("bA") != dA or rho.ind_size("bB") != dB:
         raise Violation("rho-shape", **info)
-    M = einsum_value([(np.asarray(a, dtype=np.complex128), i) for a, i in tn_tensors(rho)], ["kA", "kB", "bA", "bB"])
-    M = M.reshape(dA * dB, dA * dB) * 10.0 ** float(getattr(rho, "exponent", 0.0) or 0.0)
+    M = denote(rho, ["kA", "kB", "bA", "bB"])
+    M = M.reshape(dA * dB, dA * dB)
     scale = 1.0 if case["renorm"] else s.nrm
     tol = 1e-7  # the method is a compression at eps=1e-13 of squared quantities
     eh = rel_err(M, M.conj().T, floor=scale)
@@ -1489,8 +1512,7 @@ def run_ptr_compress(case):
         raise Violation("rho-spectrum", err=e, **info)
     # (the schmidt-basis shortcut moves the orthogonality centre of the receiver: a gauge change only, so the claim is
     # that the receiver still denotes the same state, not that its arrays are untouched)
-    d2 = einsum_value([(np.asarray(a, dtype=np.complex128), i) for a, i in tn_tensors(psi)],
-                      [psi.site_ind(x) for x in s.sites]).reshape(-1)
+    d2 = denote(psi, [psi.site_ind(x) for x in s.sites]).reshape(-1)
     ed = rel_err(d2, s.dense, floor=np.sqrt(s.nrm))
     if not ed <= 1e-8:
         raise Violation("state-changed", err=ed, **info)
